@@ -379,6 +379,11 @@ class _Strip(ast.NodeTransformer):
 def parse(src: str, rel: str = None):
     """ast.parse + the normalisations above; `rel` is the file's path relative to the repository root."""
     tree = ast.parse(src)
+    # pure renamings of non-public names (methods, attributes, module-level names) are undone first (translate/renames.py)
+    import os
+    from . import renames
+    mapping, _ = renames.rename_map(Path(os.environ.get('BOBOCEP_REPO', '/repo')))
+    tree = renames.undo(tree, mapping)
     tree = _Strip().visit(tree)
     tree = _FStr().visit(tree)
     pinned = _pinned().get(rel or '', {})
